@@ -14,7 +14,7 @@ RULE = ('every ordered pair (t1,t2) of the term universe (quick: all terms of de
         'x every stack of earlier, still suspended unifications from the menu (quick: 6 stacks; thorough: the depth<=1 universe under every '
         'stack of <=2 equations out of 8 that is consistent and acyclic) x every point of the stack at which the unify generator is CREATED (it is always advanced under the whole stack). For each: number of yields, canonical '
         'observation of (X,Y,Z,t1,t2) at the yield vs Robinson unification (mgu up to renaming incl. aliasing), both '
-        'terms observe equal, bindings restored after exhaustion (the exhausted iterator is then also closed, twice) and after close(). states = distinct '
+        'terms observe equal, the two term objects unify as written once the stack they were built under is closed; list cells built with listpair on one side and with functor on the other (empty stack); bindings restored after exhaustion (the exhausted iterator is then also closed, twice) and after close(). states = distinct '
         '(stack, outcome) observations; transitions = next()/close() calls on real unify generators; non-trivial = '
         'the terms unify and bind at least one variable')
 ASSUMPTIONS = ['pairs whose unification would need a cyclic term are unspecified and skipped (counted)',
@@ -100,7 +100,11 @@ def plan(tier):
     return [('thorough', 'quick', k, 256) for k in range(256)] + [('quick', 'thorough', k, 64) for k in range(64)]
 
 
-def check_pair(stack, t1, t2, create_at=None):
+def has_dot(t):
+    return t[0] == 'f' and ((t[1] == '.' and len(t[2]) == 2) or any(has_dot(x) for x in t[2]))
+
+
+def check_pair(stack, t1, t2, create_at=None, dots2='listpair'):
     """-> ('skip', reason) | ('ok', outcome, steps, nontrivial) | ('violation', sig, detail)
     create_at: the unify generator for (t1,t2) is CREATED after the first create_at equations of
     the stack are active, the rest of the stack is established afterwards, and only then is the
@@ -124,7 +128,7 @@ def check_pair(stack, t1, t2, create_at=None):
     e1 = e2 = None
     for si, (l, r) in enumerate(stack):
         if si == create_at:
-            e1, e2 = impl.to_engine(yp, t1, vm), impl.to_engine(yp, t2, vm)
+            e1, e2 = impl.to_engine(yp, t1, vm), impl.to_engine(yp, t2, vm, dots2)
             early = iter(impl.engine.unify(e1, e2))
         g = iter(impl.engine.unify(impl.to_engine(yp, l, vm), impl.to_engine(yp, r, vm)))
         try:
@@ -137,7 +141,7 @@ def check_pair(stack, t1, t2, create_at=None):
     if pre != canon([X, Y, Z], env0):
         return ('violation', 'stack-observation', 'after the stack: %s, expected %s' % (show_obs(pre), show_obs(canon([X, Y, Z], env0))))
     if early is None:
-        e1, e2 = impl.to_engine(yp, t1, vm), impl.to_engine(yp, t2, vm)
+        e1, e2 = impl.to_engine(yp, t1, vm), impl.to_engine(yp, t2, vm, dots2)
     exp = None if env1 is None else canon([X, Y, Z, t1, t2], env1)
 
     def fail(sig, msg):
@@ -203,6 +207,23 @@ def check_pair(stack, t1, t2, create_at=None):
     fin = impl.observe([vx, vy, vz])
     if fin != canon([X, Y, Z], {}):
         return fail('bindings-left-after-stack', '(X,Y,Z) = %s after closing the stack' % show_obs(fin))
+    if stack:
+        # the two term objects were BUILT while the stack's bindings were active; now that these are
+        # undone, the same objects denote the terms as written and unify accordingly
+        try:
+            env_e = ref_unify(t1, t2, {})
+        except Cyclic:
+            env_e = 'skip'
+        if env_e != 'skip':
+            exp_e = None if env_e is None else canon([X, Y, Z, t1, t2], env_e)
+            got_e = None
+            for _ in impl.engine.unify(e1, e2):
+                got_e = impl.observe([vx, vy, vz, e1, e2])
+                break
+            steps += 1
+            if got_e != exp_e:
+                return fail('terms-built-under-bindings-keep-them', 'after the stack was closed, unify of the same two term objects gives %s, expected %s'
+                            % (show_obs(got_e) if got_e else 'no answer', show_obs(exp_e) if exp_e else 'no answer'))
     nontrivial = exp is not None and exp[:3] != pre
     return ('ok', exp, steps, nontrivial)
 
@@ -217,17 +238,20 @@ def run_shard(spec):
             if (si * len(U) + i1) % n != k:
                 continue
             for i2, t2 in enumerate(U):
-                for create_at in [None] + list(range(len(st))):
-                    idx = (si, i1, i2, -1 if create_at is None else create_at)
+                variants = [(ca, 'listpair') for ca in [None] + list(range(len(st)))]
+                if si == 0 and (has_dot(t1) or has_dot(t2)):
+                    variants.append((None, 'functor'))     # t2's '.' cells built with functor('.', [h, t])
+                for create_at, dots2 in variants:
+                    idx = (si, i1, i2, -1 if create_at is None else create_at, dots2)
                     acc.n['evaluations'] += 1
-                    r = check_pair(st, t1, t2, create_at)
+                    r = check_pair(st, t1, t2, create_at, dots2)
                     if r[0] == 'skip':
                         acc.skipped[r[1]] += 1
                         continue
                     acc.n['validated'] += 1
                     if r[0] == 'violation':
-                        case = {'stack': _j(st), 't1': _j(t1), 't2': _j(t2), 'create_at': create_at}
-                        acc.violation(r[1], idx, case, r[2], key='%s|%s|%s|%s' % (si, show_term(t1), show_term(t2), create_at))
+                        case = {'stack': _j(st), 't1': _j(t1), 't2': _j(t2), 'create_at': create_at, 'dots2': dots2}
+                        acc.violation(r[1], idx, case, r[2], key='%s|%s|%s|%s|%s' % (si, show_term(t1), show_term(t2), create_at, dots2))
                         continue
                     acc.n['transitions'] += r[2]
                     if r[3]:
@@ -240,7 +264,7 @@ def run_shard(spec):
 
 
 def replay(case):
-    r = check_pair(_t(case['stack']), _t(case['t1']), _t(case['t2']), case.get('create_at'))
+    r = check_pair(_t(case['stack']), _t(case['t1']), _t(case['t2']), case.get('create_at'), case.get('dots2', 'listpair'))
     if r[0] == 'violation':
         return [(r[1], r[2])]
     return []
